@@ -14,10 +14,10 @@ echo "== worktree $W, HEAD $(git rev-parse --short HEAD), change applied: $(git 
 echo "== (a) repo test suite WITH the change" >> $L
 cargo test --offline --lib 2>&1 | grep -E "^test result|FAILED|error(\[|:)" >> $L
 echo "== (b) demo WITH the change (expected: fails)" >> $L
-cargo test --offline $EXTRA --test $DEMO 2>&1 | grep -E "^test |^test result|error(\[|:)" | head -20 >> $L
+cargo test --offline $EXTRA --test $DEMO ${POST_ARGS:-} 2>&1 | grep -E "^test |^test result|error(\[|:)" | head -20 >> $L
 git apply -R mutant/patch.diff || { echo "cannot reverse patch" >> $L; exit 9; }
 echo "== (c) demo WITHOUT the change (expected: passes)" >> $L
-cargo test --offline $EXTRA --test $DEMO 2>&1 | grep -E "^test |^test result|error(\[|:)" | head -20 >> $L
+cargo test --offline $EXTRA --test $DEMO ${POST_ARGS:-} 2>&1 | grep -E "^test |^test result|error(\[|:)" | head -20 >> $L
 git apply mutant/patch.diff
 echo "== done" >> $L
 cat $L
